@@ -327,8 +327,8 @@ func run(c *mon.Ctx) {
 	per := c.N(40, 300000)
 	c.Exhaustive("all 256 stream ids x 3 PTS_DTS_flags values", 768)
 	c.Floor("concurrent.calls", 5000)
-	c.Stream("concurrent-decoders", c.N(3, 150), func(i int, r *gen.Rand) {
-		c.Concurrent("pes.NewPESHeader", 8, 250, r, func(q *gen.Rand) string {
+	c.Stream("concurrent-decoders", c.N(8, 200), func(i int, r *gen.Rand) {
+		c.Concurrent("pes.NewPESHeader", 8, 2000, r, func(q *gen.Rand) string {
 			sid := 0xc0 + q.Intn(0x30)
 			h := genPES(q, sid, q.PickByte([]byte{0, 2, 3}))
 			b, hdrEnd := h.Bytes()
